@@ -397,6 +397,12 @@ def gen_program(rnd, max_lines=30, with_data=None):
     n = rnd.randint(0, max_lines)
     n_labels = rnd.randint(0, 4)
     label_names = ["L%d_%s" % (i, rnd.choice(["loop", "end", "Fn", "_x"])) for i in range(n_labels)]
+    # any identifier is a label name -- also one spelled like a mnemonic, a register or a directive keyword (tests/ has
+    # labels named like registers); a sixth of the programs name one label that way
+    if label_names and rnd.random() < 1 / 6:
+        special = rnd.choice(["sub", "and", "add", "rem", "div", "mul", "or", "lw", "sw", "beq", "jal", "li", "la", "mv", "nop_", "Add", "x5_", "zero_", "a0_", "word", "text_"])
+        if special not in label_names:
+            label_names[rnd.randrange(len(label_names))] = special
     items = [gen_item(rnd, data, label_names) for _ in range(n)]
     # place every label exactly once: stand-alone (possibly at the very end) or in-line
     for name in label_names:
